@@ -762,7 +762,16 @@ def mk_add(st, a, b):
                 s_, a_ = vals[1][1], vals[2]
                 if k == mk_gather(st, s_, a_):
                     return mk_inj(st, s_, a_)
+    # element-wise addition of naturals is commutative: one order for the normal form (not for arrays of a generic
+    # element type, whose `+` is the element type's own)
+    if repr(b) < repr(a) and _nat_arrays(a, b):
+        a, b = b, a
     return ("add", a, b)
+
+
+def _nat_arrays(a, b):
+    import lax_model
+    return not lax_model.label_of(a) and not lax_model.label_of(b)
 
 
 OPAQUE_OPS = {"lmap", "single", "flat", "lens", "emap", "zip", "enum", "filtermap", "list", "upd", "el", "at",
@@ -895,6 +904,8 @@ def _degenerate(st, r):
                 return r[1]
             if _is_zero_fill(st, r[1]):
                 return r[2]
+            if repr(r[2]) < repr(r[1]) and _nat_arrays(r[1], r[2]):
+                return ("add", r[2], r[1])          # commutative (naturals): one order for the normal form
         if op == "sub" and _is_zero_fill(st, r[2]):
             return r[1]
         if op in ("sa", "sac", "ssa") and _known_empty(st, r[2]):
